@@ -562,6 +562,48 @@ func choiceOperands(v ssa.Value) []ssa.Value {
 	return nil
 }
 
+// normPhi flattens every nested choice of a descriptor ("phi{a|phi{b|c}}" is "phi{a|b|c}"),
+// wherever it occurs in the text; how many merges or helper returns a value went through is
+// not part of a key.
+func normPhi(s string) string {
+	if !strings.Contains(s, "phi{phi{") && !strings.Contains(s, "|phi{") {
+		return s
+	}
+	var b strings.Builder
+	for i := 0; i < len(s); {
+		if strings.HasPrefix(s[i:], "phi{") {
+			depth, j := 0, i+3
+			for ; j < len(s); j++ {
+				if s[j] == '{' || s[j] == '(' || s[j] == '[' {
+					depth++
+				} else if s[j] == '}' || s[j] == ')' || s[j] == ']' {
+					depth--
+					if depth == 0 {
+						break
+					}
+				}
+			}
+			if j < len(s) {
+				if parts, ok := phiParts(s[i : j+1]); ok {
+					for k := range parts {
+						parts[k] = normPhi(parts[k])
+					}
+					if m := mkPhi(parts); strings.HasPrefix(m, "phi{") {
+						b.WriteString(m)
+					} else {
+						b.WriteString("phi{" + m + "}") // a one-way merge stays written as one
+					}
+					i = j + 1
+					continue
+				}
+			}
+		}
+		b.WriteByte(s[i])
+		i++
+	}
+	return b.String()
+}
+
 // phiParts splits a "phi{a|b|…}" descriptor at its top level.
 func phiParts(s string) ([]string, bool) {
 	if !strings.HasPrefix(s, "phi{") || !strings.HasSuffix(s, "}") {
@@ -1091,7 +1133,7 @@ func (d *Describer) inlineHelper(c *ssa.CallCommon, k int, depth int) (string, b
 	for _, a := range c.Args {
 		args = append(args, d.val(a, depth+1))
 	}
-	out := d.SubstFree(c.Value, SubstParams(body, args))
+	out := normPhi(d.SubstFree(c.Value, SubstParams(body, args)))
 	if uninformative(out) {
 		// a verdict that is only a local flag / constants says nothing: keep the call itself as the key
 		return "", false
